@@ -90,7 +90,7 @@ func (c *Ctx) ruleDelegateWiring(id string, d *dstate) {
 	for _, field := range d.repeatedFields() {
 		key := "MergeRemoteState consumes StateBroadcastEvent." + field
 		found := false
-		for _, cl := range core.CallsIn(d.mergeRemote) {
+		for _, cl := range c.callsDeep(d.mergeRemote, 2) {
 			if cl.Static == nil || cl.Static.Package() != d.pkg {
 				continue
 			}
